@@ -79,7 +79,7 @@ Fixpoint run_body (rec : frame -> nat -> list str -> outcome * list binding)
                      | Ok (Some fr') => rec fr' npos kws'
                      | Ok None =>
                          match c with
-                         | KSuper | KClass _ =>
+                         | KSuper | KSuperOf _ | KClass _ =>
                              if Nat.eqb npos 0 && is_nil kws' then (COk, []) else (CObjInit, [])
                          | _ => (COther, [])
                          end
